@@ -493,6 +493,41 @@ pub fn oracle_table(s: &Spec, max_ops: usize, max_parens: usize, cap: usize) -> 
     (groups, complete)
 }
 
+type Groups = BTreeMap<Vec<usize>, Vec<E>>;
+
+struct TreeCache {
+    key: u64,
+    memo: BTreeMap<(usize, usize), Vec<E>>,
+    groups: BTreeMap<(usize, usize), Groups>,
+}
+
+thread_local! {
+    /// all trees of the grammar a thread is currently judging, grouped by token string
+    /// (requests of one grammar are judged in a row, so one entry is enough)
+    static TREES: std::cell::RefCell<TreeCache> = std::cell::RefCell::new(TreeCache { key: 0, memo: BTreeMap::new(), groups: BTreeMap::new() });
+}
+
+/// all parse trees (of the ambiguous expression grammar) with `n_ops` operator applications and
+/// `n_par` pairs of parentheses whose yield is `piece`
+fn trees_of(g: &Grammar, s: &Spec, n_ops: usize, n_par: usize, piece: &[usize]) -> Vec<E> {
+    let key = crate::ev::hash64(&format!("{g:?}"));
+    TREES.with(|c| {
+        let mut c = c.borrow_mut();
+        if c.key != key {
+            *c = TreeCache { key, memo: BTreeMap::new(), groups: BTreeMap::new() };
+        }
+        if !c.groups.contains_key(&(n_ops, n_par)) {
+            let v = exactly(s, n_ops, n_par, &mut c.memo, 200_000);
+            let mut gr: Groups = BTreeMap::new();
+            for e in v {
+                gr.entry(e.tokens(s)).or_default().push(e);
+            }
+            c.groups.insert((n_ops, n_par), gr);
+        }
+        c.groups[&(n_ops, n_par)].get(piece).cloned().unwrap_or_default()
+    })
+}
+
 pub struct P07;
 
 const RULE: &str = "grammars `s: e; e: <1-5 operator branches> | N | LP e RP` from choice streams: branch kinds infix, prefix, postfix, mixfix-postfix (e OP e CLOSE), ternary (e OP e SEP e), 1-3 operator tokens per branch written as token or parenthesised alternation, any subset of infix/ternary branches declared `right` (never mixed inside a branch), atoms at random positions among the branches, prefix operators optionally sharing the token of an infix branch, a quarter of the branches with a leading predicate that holds (`?t` or `?n` answered true) and a quarter with a trailing action; inputs: ALL operator expressions with up to k operator applications and up to 1 pair of parentheses (k = 4 quick, 5-6 thorough; capped per grammar, cap reported), as token strings. Oracle: all parse trees of the ambiguous expression grammar for the string are enumerated and filtered by the definition of precedence-correctness (right spine of a left operand / left spine of a right operand); exactly one survives and must equal the reply tree; zero diagnostics. The interpreter's precedence climbing is cross-checked against the same oracle (self-check). non-trivial = expression with >= 2 operators of one branch, or of two branches in the textual order looser-first, or a prefix/postfix operator next to an infix one (approximated: >= 2 operator applications); distinct = (grammar, expression)";
@@ -508,7 +543,7 @@ impl LabProp for P07 {
         vec![Profile::base("pratt-spec-small"), Profile::base("pratt-spec")]
     }
     fn n_grammars(&self, t: Tier) -> usize {
-        t.pick(100, 1500)
+        t.pick(300, 3000)
     }
     fn build(&self, prof: &Profile, stream: &[u32]) -> Option<Grammar> {
         let mut d = Dice::new(stream);
@@ -519,9 +554,9 @@ impl LabProp for P07 {
     }
     fn requests(&self, g: &Grammar, _i: &GInfo, gi: usize, d: &mut Dice<'_>, t: Tier) -> Vec<Req> {
         let s = spec_from_grammar(g).unwrap();
-        let k = t.pick(4, if s.branches.len() <= 2 { 6 } else { 5 });
+        let k = t.pick(if s.branches.len() <= 2 { 5 } else { 4 }, if s.branches.len() <= 2 { 7 } else { 5 });
         let (groups, _) = oracle_table(&s, k, 1, t.pick(6000, 40000));
-        let budget = t.pick(500, 4000);
+        let budget = t.pick(700, 4000);
         let keys: Vec<&Vec<usize>> = groups.keys().collect();
         let mut out = vec![];
         if keys.len() <= budget {
@@ -578,14 +613,22 @@ impl LabProp for P07 {
             Some(semi) if s.embed == 1 => toks.split(|t| *t == semi).filter(|p| !p.is_empty()).map(|p| p.to_vec()).collect(),
             _ => vec![toks.clone()],
         };
+        if s.embed == 1 && toks.last().is_some_and(|t| Some(*t) != s.semi) {
+            // (shrunk inputs) a statement list must end with the separator to be a sentence
+            ev.exclude("input is no sentence of the embedding");
+            return Ok(());
+        }
+        if s.embed == 1 && toks.windows(2).any(|w| Some(w[0]) == s.semi && Some(w[1]) == s.semi) || (s.embed == 1 && toks.first().is_some_and(|t| Some(*t) == s.semi)) {
+            ev.exclude("input is no sentence of the embedding");
+            return Ok(());
+        }
         let mut chosen: Vec<E> = vec![];
         let mut all_len = 0;
         for piece in &pieces {
             // all trees of this very string: enumerate with the operator count of the string
             let n_ops = piece.iter().filter(|t| s.branches.iter().any(|b| b.ops.contains(t))).count();
             let n_par = piece.iter().filter(|t| **t == s.lp).count();
-            let mut memo = BTreeMap::new();
-            let all: Vec<E> = exactly(&s, n_ops, n_par, &mut memo, 200_000).into_iter().filter(|e| e.tokens(&s) == *piece).collect();
+            let all: Vec<E> = trees_of(g, &s, n_ops, n_par, piece);
             let good: Vec<&E> = all.iter().filter(|e| correct(&s, e)).collect();
             if good.len() != 1 {
                 ev.exclude(&format!("INTERNAL: oracle finds {} precedence-correct trees", good.len()));
